@@ -25,8 +25,8 @@ theorem swapRemove_exact (l : List Nat) (a : Nat) (h : l.Nodup) :
     (swapRemove l a).1.Nodup ∧
     (a ∈ l → (swapRemove l a).1.length = l.length - 1) ∧
     (∀ x, x ∈ (swapRemove l a).1 ↔ x ∈ l ∧ x ≠ a) :=
-  ⟨swapRemove_snd l a, fun hn => swapRemove_not_mem hn, swapRemove_perm l a, swapRemove_nodup a h,
-    fun hm => length_swapRemove hm, fun x => mem_swapRemove a x h⟩
+  ⟨nd_swapRemove_snd l a, fun hn => swapRemove_not_mem hn, nd_swapRemove_perm l a, nd_swapRemove_nodup a h,
+    fun hm => length_swapRemove hm, fun x => g_mem_swapRemove a x h⟩
 
 /-- **C14.1, setInsert**: appends iff new, keeps the list duplicate-free -/
 theorem setInsert_exact (l : List Nat) (a : Nat) :
@@ -146,7 +146,7 @@ theorem selectNft_call (hash : List Nat → List Nat) (s : State) (e : Env) (s' 
   have hcred : (tx0 s e).s = s := by
     unfold tx0; exact creditPayments_nopay s e hpay.1 hpay.2
   simp only [exec] at hx
-  obtain ⟨hst, hsel, hadd, t0, t1, rng, rng', st, h0, hsub, hfin⟩ := selectNft_inv hx
+  obtain ⟨hst, hsel, hadd, t0, t1, rng, rng', st, h0, hsub, hfin⟩ := g_selectNft_inv hx
   rw [hcred] at hst hsel hadd h0
   have hok0 : NftOk t0.s := by rw [h0]; exact hok
   have hle0 : t0.s.nftWinners.length ≤ t0.s.availNfts := by rw [h0]; exact hle
@@ -218,7 +218,7 @@ theorem draw_total_gen (hash : List Nat → List Nat) (s s' : State) (h : DrawCa
         | step hstep2 _ =>
           obtain ⟨m, t, _, _, _, hx, _, _⟩ := step_ok_inv hstep2
           simp only [exec] at hx
-          have := (selectNft_inv hx).2.2.1
+          have := (g_selectNft_inv hx).2.2.1
           change s1.flags.additional = false at this
           rw [hadd1] at this
           cases this
